@@ -43,6 +43,7 @@ pub fn compound_matches(dom: &ODom, el: Id, c: &Compound) -> bool {
                 .any(|(k, v)| k == "class" && v.split_ascii_whitespace().any(|x| x == cl)),
             Simple::Id(i) => attrs.iter().any(|(k, v)| k == "id" && v == i),
             Simple::Star => true,
+            Simple::PseudoEl(_) => true,
             Simple::Nth { a, b, .. } => nth_matches(*a, *b, element_index(dom, el)),
         };
         if !ok {
